@@ -316,7 +316,7 @@ def validate_chunk(module, cfgname, path, nkeys, workdir, timeout=None):
     timeout = timeout or (1200 if os.environ.get("VERIF_TIER", "quick") == "quick" and not THOROUGH[0] else 6000)
     env = {"TRACE": path, "NKEYS": str(nkeys), "JAVA_TOOL_OPTIONS": JAVA_OPTS_TRACE}
     rc, out = run_tlc(module, os.path.join(SPEC, cfgname), workdir, workers=1, env=env,
-                      timeout=timeout, heap="3g")
+                      timeout=timeout, heap="6g" if THOROUGH[0] else "3g")
     msgs = []
     for line in out.splitlines():
         line = line.strip()
